@@ -9,7 +9,7 @@ FFlows == {"get", "wait_get", "drop"}      \* std::future returned by async()
 Sc(kind, type, flow, slow, n) == [kind |-> kind, type |-> type, flow |-> flow, slow |-> slow, n |-> n]
 ATasks == {Sc("atask", t, f, s, 1) : t \in Types, f \in AFlows, s \in BOOLEAN}
 Asyncs == {Sc("async", t, f, s, 1) : t \in Types \ {"slowctor"}, f \in FFlows, s \in BOOLEAN}
-Bursts == {Sc("burst", t, "idle", s, n) : t \in {"int", "vector"}, s \in BOOLEAN, n \in {1, 10, 1000, 30000}}
+Bursts == {Sc("burst", t, "idle", s, n) : t \in {"int", "vector"}, s \in BOOLEAN, n \in {1, 10, 255, 256, 257, 513, 1000, 30000}}   \* 256 = capacity of a scheduler pipe of the Internal back end
 \* a scheduled closure that schedules n further closures itself (on the Internal backend some of them then run nested
 \* inside the parent once the thread's task pipe is full, i.e. for n > 256)
 Nested == {Sc("nested", "vector", "idle", s, n) : s \in BOOLEAN, n \in {10, 600, 3000}}
